@@ -740,8 +740,8 @@ where
                     self.emptybuffer = true;
                     // but first we prune unneeded items:
                     if self.end < 0 && self.begin < 0 {
-                        //discard items from the begin which we do not want
-                        for _ in 0..self.begin.abs() {
+                        //discard items from the begin which we do not want (only the last abs(begin) items are in range)
+                        while self.buffer.len() > self.begin.abs() as usize {
                             self.buffer.pop_front();
                         }
                     }
